@@ -25,7 +25,9 @@ type mgrEnv struct {
 	mgrs map[string]*cobalt.Manager
 }
 
-func newMgrEnv(t *testing.T) *mgrEnv { return &mgrEnv{pe: newPlugEnv(t), mgrs: map[string]*cobalt.Manager{}} }
+func newMgrEnv(t *testing.T) *mgrEnv {
+	return &mgrEnv{pe: newPlugEnv(t), mgrs: map[string]*cobalt.Manager{}}
+}
 
 func (me *mgrEnv) manager(shareBase, maxShare int) *cobalt.Manager {
 	me.mu.Lock()
